@@ -35,6 +35,13 @@ Theorem C38_default_binary_roundtrip :
   forall e, binary_only e = true -> reparse false e = Some e.
 Proof. exact default_binary_roundtrip. Qed.
 
+(* The candidate repair -- wrap NOT, unary minus, IS ..., [NOT] LIKE and [NOT] IN in parentheses like binary expressions are --
+   round-trips EVERY expression of the fragment, for every precedence table that knows the operators, and never prints `--`. *)
+Theorem C38_parenthesise_everything_roundtrips :
+  forall (T : ptab) e, ops_pos T e = true ->
+    option_map strip (parse T (show (to_ast_paren e))) = Some e /\ hazard (to_ast_paren e) = false.
+Proof. exact paren_roundtrip. Qed.
+
 (* ---- where the faithful model VIOLATES the property (each witness is replayed on the implementation by the harness) *)
 (* default unparser: NOT / IS ... / IN / LIKE are emitted without parentheses *)
 Theorem C38_default_not_operand_refuted :      (* (NOT b0) IS NULL  ->  NOT b0 IS NULL  =  NOT (b0 IS NULL) *)
@@ -100,6 +107,10 @@ Example C38_nonvacuous_wf :
   show (unparse true e) = [TAtom 0; TInfix (IOp OpEq); TAtom 1; TInfix (IOp OpAnd); TNot; TAtom 2; TPost PIsNull; TInfix (IOp OpAnd);
                            TAtom 6; TInfix (ILike LLike); TLP; TAtom 7; TInfix (IOp OpStringConcat); TAtom 30; TRP].
 Proof. vm_compute. repeat split; reflexivity. Qed.
+
+Example C38_nonvacuous_paren :     (* - (- i0) and (NOT b0) IS NULL are in the domain of the repair theorem for sqlparser's tables *)
+  ops_pos sq_tab (EBin OpAnd (EIs PIsNull (ENot (EAtom 3))) (EBin OpLt (ENeg (ENeg (EAtom 0))) (EAtom 1))) = true.
+Proof. vm_compute. reflexivity. Qed.
 
 Example C38_nonvacuous_binary :
   binary_only (EBin OpMinus (EAtom 0) (EBin OpMinus (EBin OpIsDistinctFrom (EAtom 1) (EBin OpBitwiseOr (EAtom 2) (EAtom 0))) (EAtom 1))) = true.
